@@ -550,7 +550,7 @@ theorem rsim_afterH (n : Nat) (hB : RSimB dr rv X n) (hs : List (Nat × Block))
 
 /-- The `finally` step of a lowered `try`. -/
 theorem rsim_finish (n : Nat) (hB : RSimB dr rv X n) (fin : Block)
-    (hcf : CleanB (HidR dr rv) fin) (hff : finOKB fin = true) (hjf : jumpFreeB fin = true)
+    (hcf : CleanB (HidR dr rv) fin) (hff : finOKB fin = true) (hjf : escFreeB fin = true)
     {hit : Bool} {oa oa' o : Out} {σ' τa τa' σ1 : St}
     (hq : quietB fin = true ∨ hit = false)
     (hag : Agree (HidR dr rv) τa τa') (hp : RPost dr rv hit oa oa' σ' τa')
@@ -558,7 +558,10 @@ theorem rsim_finish (n : Nat) (hB : RSimB dr rv X n) (fin : Block)
     ∃ m σ1' o', finish X m (retB dr rv false false fin).1 (oa', τa') = some (o', σ1') ∧
       Agree (HidR dr rv) σ1 σ1' ∧ RPost dr rv (hit || (retB dr rv false false fin).2) o o' σ' σ1' := by
   obtain ⟨of, σf, hf, hcase⟩ := finish_some hfin
-  have hhitf : (retB dr rv false false fin).2 = false := retB_jumpFree dr rv _ _ fin hjf
+  have hhitf : (retB dr rv false false fin).2 = false := by
+    rw [retB_hit]
+    simp only [escFreeB, Bool.and_eq_true, Bool.not_eq_true'] at hjf
+    exact hjf.2
   obtain ⟨m, σf', of', hxf, hagf, hpf⟩ :=
     hB fin false false τa τa' of σf hcf hff hag
       (by intro h; rcases h with h | h | h
@@ -568,7 +571,7 @@ theorem rsim_finish (n : Nat) (hB : RSimB dr rv X n) (fin : Block)
   have hcurf : σf'.env dr = τa'.env dr ∧ σf'.env rv = τa'.env rv := hpf.2.2 hhitf
   have hofr : ∀ v, of ≠ .ret v := by
     intro v
-    rcases jumpFreeB_outcome X hjf hf with h | ⟨e, h⟩ <;> simp [h]
+    rcases escFreeB_outcome X hjf hf with h | ⟨e, h⟩ <;> simp [h]
   obtain ⟨hof', _⟩ := hpf.2.1 hofr
   rw [hof'] at hxf
   rw [hhitf, Bool.or_false]
